@@ -524,6 +524,8 @@ def shrink(case, fails):
     def variants(c):
         if c["op"] == "cli":
             for i in range(len(c["args"])):
+                yield cli_case(c["ri0"], c["pre"], c["args"][:i] + c["args"][i + 2:], c["calls"])
+            for i in range(len(c["args"])):
                 yield cli_case(c["ri0"], c["pre"], c["args"][:i] + c["args"][i + 1:], c["calls"])
             for i in range(len(c["pre"])):
                 yield cli_case(c["ri0"], c["pre"][:i] + c["pre"][i + 1:], c["args"], c["calls"])
@@ -649,7 +651,7 @@ def run(tier, seed):
     # ---- corr:filter-case: corpus first, then generated
     cor = corpus()
     cases = [c for c in cor if c.get("op") == "case"]
-    ncases = 6000 if thorough else 700
+    ncases = 40000 if thorough else 3000
     while len(cases) < ncases:
         cases.append(gen_case(r))
     impl, n = check_cases(chk, binary, cases, "corr:filter-case")
@@ -685,7 +687,7 @@ def run(tier, seed):
     clis = [c for c in cor if c.get("op") == "cli"]
     clis.append(cli_case(None, [], ["--exact", "--skip", "beta"], [["alpha", False], ["beta", False]]))
     clis.append(cli_case(None, ["foo"], ["--ignored", "--", "str", "---", "--ignored"], [["foo", True], ["str", True]]))
-    ncli = 4000 if thorough else 500
+    ncli = 20000 if thorough else 1500
     while len(clis) < ncli:
         clis.append(gen_cli(r))
     cimpl = vlib.run_impl(binary, "filter", clis)
